@@ -32,7 +32,7 @@ def _fixed(which):
 
 # ---------------------------------------------------------------------------------------------------
 def cp_table(nonneg=False, masks=True, extras=True):
-    W = {"none": "cp-weights-none", "ones": "cp-weights-ones", "nonunit": "cp-weights-nonunit"}
+    W = {"none": "cp-unit-weights", "ones": "cp-unit-weights", "nonunit": "cp-nonunit-weights"}
     t = [
         ("init-svd", {}, {}),
         ("init-random", {"init": "random", "random_state": 0}, {}),
@@ -68,20 +68,20 @@ def parafac_table():
     t = cp_table()
     t += [
         ("fixed-modes[all]+user-init", {"init": _ui("none"), "fixed_modes": _fixed("all")},
-         {"init": "cp-weights-none", "fixed_modes": "all-modes"}),
+         {"init": "cp-unit-weights", "fixed_modes": "all-modes"}),
         ("sparsity", {"sparsity": 0.3}, {}),
         ("sparsity+user-init+mask", {"sparsity": 3, "init": _ui("none"), "mask": L(lambda c: mask_for(c, "float"))},
-         {"init": "cp-weights-none", "mask": "float"}),
+         {"init": "cp-unit-weights", "mask": "float"}),
         ("l2_reg", {"l2_reg": 0.1}, {}),
-        ("orthogonalise+user-init", {"orthogonalise": True, "init": _ui("none")}, {"init": "cp-weights-none"}),
-        ("linesearch+user-init", {"linesearch": True, "init": _ui("none"), "n_iter_max": 10, "tol": 1e-13}, {"init": "cp-weights-none"}),
+        ("orthogonalise+user-init", {"orthogonalise": True, "init": _ui("none")}, {"init": "cp-unit-weights"}),
+        ("linesearch+user-init", {"linesearch": True, "init": _ui("none"), "n_iter_max": 10, "tol": 1e-13}, {"init": "cp-unit-weights"}),
         ("linesearch+mask", {"linesearch": True, "mask": L(lambda c: mask_for(c, "float")), "n_iter_max": 10, "tol": 1e-13,
                              "init": "random", "random_state": 0}, {"mask": "float"}),
         ("return_errors", {"return_errors": True}, {}),
         ("callback+user-init", {"callback": L(lambda c: quiet_callback()), "return_errors": True, "init": _ui("none")},
-         {"init": "cp-weights-none"}),
+         {"init": "cp-unit-weights"}),
         ("raise[callback]+user-init+mask", {"callback": L(lambda c: raising_callback(3)), "return_errors": True, "init": _ui("none"),
-                                            "mask": L(lambda c: mask_for(c, "float"))}, {"init": "cp-weights-none", "mask": "float"}),
+                                            "mask": L(lambda c: mask_for(c, "float"))}, {"init": "cp-unit-weights", "mask": "float"}),
     ]
     return t
 
@@ -94,10 +94,10 @@ def hals_table():
         ("sparsity_coefficients[float]", {"sparsity_coefficients": 0.1}, {}),
         ("sparsity_coefficients[list]+fixed-modes+user-init",
          {"sparsity_coefficients": L(lambda c: [0.1] * c.N), "fixed_modes": _fixed("first"), "init": _ui("none", True)},
-         {"sparsity_coefficients": "list-with-entry-on-fixed-mode", "fixed_modes": "without-last-mode", "init": "cp-weights-none"}),
-        ("nn_modes[list]+user-init", {"nn_modes": L(lambda c: [0]), "init": _ui("none", True)}, {"init": "cp-weights-none", "nn_modes": "list"}),
-        ("nn_modes[None]+user-init", {"nn_modes": None, "init": _ui("none", True)}, {"init": "cp-weights-none"}),
-        ("exact+user-init", {"exact": True, "n_iter_max": 1, "init": _ui("none", True)}, {"init": "cp-weights-none"}),
+         {"sparsity_coefficients": "list-with-entry-on-fixed-mode", "fixed_modes": "without-last-mode", "init": "cp-unit-weights"}),
+        ("nn_modes[list]+user-init", {"nn_modes": L(lambda c: [0]), "init": _ui("none", True)}, {"init": "cp-unit-weights", "nn_modes": "list"}),
+        ("nn_modes[None]+user-init", {"nn_modes": None, "init": _ui("none", True)}, {"init": "cp-unit-weights"}),
+        ("exact+user-init", {"exact": True, "n_iter_max": 1, "init": _ui("none", True)}, {"init": "cp-unit-weights"}),
         ("return_errors", {"return_errors": True}, {}),
     ]
     return t
@@ -106,13 +106,13 @@ def hals_table():
 def constrained_table():
     t = [(lab, dict(extra, non_negative=True) if "raise[svd" not in lab else dict(extra, non_negative=True), cl)
          for lab, extra, cl in cp_table(nonneg=True, masks=False) if "normalize" not in lab]
-    t = [(lab.replace("cvg_criterion", "cvg_criterion"), extra, cl) for lab, extra, cl in t]
+    t = [(lab, {("tol_outer" if k == "tol" else k): v for k, v in extra.items()}, cl) for lab, extra, cl in t]
     t += [
         ("l1_reg[list]", {"l1_reg": L(lambda c: [0.1] * c.N)}, {"l1_reg": "list"}),
         ("non_negative[dict]", {"non_negative": L(lambda c: {m: True for m in range(c.N)})}, {"non_negative": "dict"}),
         ("mixed[dicts]+user-init", {"non_negative": L(lambda c: {0: True}), "l2_square_reg": L(lambda c: {1: 0.1}),
                                      "unimodality": L(lambda c: {m: True for m in range(2, c.N)}), "init": _ui("none", True)},
-         {"non_negative": "dict", "l2_square_reg": "dict", "init": "cp-weights-none"}),
+         {"non_negative": "dict", "l2_square_reg": "dict", "init": "cp-unit-weights"}),
         ("hard_sparsity[list]", {"hard_sparsity": L(lambda c: [2] * c.N)}, {"hard_sparsity": "list"}),
         ("simplex+return_errors", {"simplex": 1.0, "return_errors": True}, {}),
         ("smoothness[dict]+normalize[dict]", {"smoothness": L(lambda c: {0: 0.1}), "normalize": L(lambda c: {m: True for m in range(1, c.N)})},
@@ -125,11 +125,11 @@ def randomised_table():
     return [
         ("init-random", {}, {}),
         ("init-svd", {"init": "svd"}, {}),
-        ("user-init[none]", {"init": _ui("none")}, {"init": "cp-weights-none"}),
-        ("user-init[nonunit]", {"init": _ui("nonunit")}, {"init": "cp-weights-nonunit"}),
+        ("user-init[none]", {"init": _ui("none")}, {"init": "cp-unit-weights"}),
+        ("user-init[nonunit]", {"init": _ui("nonunit")}, {"init": "cp-nonunit-weights"}),
         ("return_errors", {"return_errors": True}, {}),
-        ("callback+user-init", {"callback": L(lambda c: quiet_callback()), "init": _ui("none")}, {"init": "cp-weights-none"}),
-        ("raise[callback]+user-init", {"callback": L(lambda c: raising_callback(3)), "init": _ui("none")}, {"init": "cp-weights-none"}),
+        ("callback+user-init", {"callback": L(lambda c: quiet_callback()), "init": _ui("none")}, {"init": "cp-unit-weights"}),
+        ("raise[callback]+user-init", {"callback": L(lambda c: raising_callback(3)), "init": _ui("none")}, {"init": "cp-unit-weights"}),
     ]
 
 
@@ -158,7 +158,7 @@ def tucker_table():
 def partial_tucker_table():
     pm = L(lambda c: [0, 1])
     pr = L(lambda c: [2, 2])
-    pui = L(lambda c: tucker_dec(c, [2, 2], modes=[0, 1]))
+    pui = L(lambda c: tucker_dec(c, [2, 2], modes=[0, 1], only=("tuple", "list")))
     return [
         ("modes+init-svd", {"modes": pm, "rank": pr}, {"modes": "list", "rank": "list"}),
         ("modes+init-random", {"modes": pm, "rank": pr, "init": "random", "random_state": 0}, {"modes": "list", "rank": "list"}),
@@ -202,18 +202,18 @@ def parafac2_table():
         ("slices[list]+init-random", {}, {"tensor_slices": "list"}),
         ("slices[tuple]+init-svd", {"tensor_slices": L(lambda c: tuple(slices_for(c))), "init": "svd"}, {"tensor_slices": "tuple"}),
         ("slices[3d-array]+init-svd", {"tensor_slices": L(lambda c: ten(c, shape=(3, 4, 3))), "init": "svd"}, {"tensor_slices": "ndarray"}),
-        ("user-init[parafac2]", {"init": L(lambda c: parafac2_dec(c))}, {"init": "parafac2-weights-none"}),
-        ("user-init[parafac2,nonunit]", {"init": L(lambda c: parafac2_dec(c, w="nonunit"))}, {"init": "parafac2-weights-nonunit"}),
-        ("user-init[cp]", {"init": L(lambda c: cp_dec(c, 2, "none", shape=(3, 2, 3)))}, {"init": "cp-weights-none"}),
+        ("user-init[parafac2]", {"init": L(lambda c: parafac2_dec(c))}, {"init": "parafac2-unit-weights"}),
+        ("user-init[parafac2,nonunit]", {"init": L(lambda c: parafac2_dec(c, w="nonunit"))}, {"init": "parafac2-nonunit-weights"}),
+        ("user-init[cp]", {"init": L(lambda c: cp_dec(c, 2, "none", shape=(3, 2, 3)))}, {"init": "cp-unit-weights"}),
         ("nn_modes[all]+init-random", {"nn_modes": "all"}, {}),
         ("nn_modes[list]+user-init", {"nn_modes": L(lambda c: [0, 2]), "init": L(lambda c: parafac2_dec(c, nonneg=True))},
-         {"init": "parafac2-weights-none", "nn_modes": "list"}),
-        ("nn_modes[all]+user-init", {"nn_modes": "all", "init": L(lambda c: parafac2_dec(c, nonneg=True))}, {"init": "parafac2-weights-none"}),
-        ("normalize_factors+user-init", {"normalize_factors": True, "init": L(lambda c: parafac2_dec(c))}, {"init": "parafac2-weights-none"}),
+         {"init": "parafac2-unit-weights", "nn_modes": "list"}),
+        ("nn_modes[all]+user-init", {"nn_modes": "all", "init": L(lambda c: parafac2_dec(c, nonneg=True))}, {"init": "parafac2-unit-weights"}),
+        ("normalize_factors+user-init", {"normalize_factors": True, "init": L(lambda c: parafac2_dec(c))}, {"init": "parafac2-unit-weights"}),
         ("linesearch-off+return_errors", {"linesearch": False, "return_errors": True}, {}),
-        ("linesearch-runs+user-init", {"n_iter_max": 9, "init": L(lambda c: parafac2_dec(c))}, {"init": "parafac2-weights-none"}),
+        ("linesearch-runs+user-init", {"n_iter_max": 9, "init": L(lambda c: parafac2_dec(c))}, {"init": "parafac2-unit-weights"}),
         ("raise[rank-too-large]", {"rank": 5}, {}),
-        ("raise[svd-name]+user-init", {"svd": "bogus", "init": L(lambda c: parafac2_dec(c))}, {"init": "parafac2-weights-none"}),
+        ("raise[svd-name]+user-init", {"svd": "bogus", "init": L(lambda c: parafac2_dec(c))}, {"init": "parafac2-unit-weights"}),
     ]
 
 
@@ -251,9 +251,9 @@ def entries():
     add("decomposition._constrained_cp.initialize_constrained_parafac", [_constrained_cp.initialize_constrained_parafac],
         _specs(_constrained_cp.initialize_constrained_parafac, {"tensor": T_, "rank": 2, "non_negative": True},
                [("init-svd", {}, {}), ("init-random", {"init": "random", "random_state": 0}, {}),
-                ("user-init[none]", {"init": _ui("none")}, {"init": "cp-weights-none"}),
-                ("user-init[ones]", {"init": _ui("ones")}, {"init": "cp-weights-ones"}),
-                ("user-init[nonunit]", {"init": _ui("nonunit")}, {"init": "cp-weights-nonunit"})]))
+                ("user-init[none]", {"init": _ui("none")}, {"init": "cp-unit-weights"}),
+                ("user-init[ones]", {"init": _ui("ones")}, {"init": "cp-unit-weights"}),
+                ("user-init[nonunit]", {"init": _ui("nonunit")}, {"init": "cp-nonunit-weights"})]))
     baser = {"tensor": T_, "rank": 2, "n_samples": 4, "n_iter_max": 3, "random_state": 0, "max_stagnation": 0, "tol": 1e-9}
     add("decomposition.randomised_parafac", [D.randomised_parafac], _specs(D.randomised_parafac, baser, randomised_table()))
     add("decomposition.RandomizedCP", [D.RandomizedCP],
@@ -303,8 +303,8 @@ def entries():
     add("decomposition._parafac2.initialize_decomposition", [_parafac2.initialize_decomposition],
         _specs(_parafac2.initialize_decomposition, {"tensor_slices": L(lambda c: slices_for(c)), "rank": 2, "random_state": 0},
                [("init-random", {}, {"tensor_slices": "list"}), ("init-svd", {"init": "svd"}, {"tensor_slices": "list"}),
-                ("user-init[parafac2]", {"init": L(lambda c: parafac2_dec(c))}, {"init": "parafac2-weights-none"}),
-                ("user-init[cp]", {"init": L(lambda c: cp_dec(c, 2, "none", shape=(3, 2, 3)))}, {"init": "cp-weights-none"})], sizes=(0,)))
+                ("user-init[parafac2]", {"init": L(lambda c: parafac2_dec(c))}, {"init": "parafac2-unit-weights"}),
+                ("user-init[cp]", {"init": L(lambda c: cp_dec(c, 2, "none", shape=(3, 2, 3)))}, {"init": "cp-unit-weights"})], sizes=(0,)))
 
     # ---- robust PCA, CMTF ----
     add("decomposition.robust_pca", [D.robust_pca], _specs(D.robust_pca, {"X": T_, "n_iter_max": 4, "verbose": 0},
@@ -316,8 +316,8 @@ def entries():
     add("decomposition.coupled_matrix_tensor_3d_factorization", [D.coupled_matrix_tensor_3d_factorization],
         _specs(D.coupled_matrix_tensor_3d_factorization, cm,
                [("init-svd", {}, {}), ("init-random", {"init": "random"}, {}), ("normalize_factors", {"normalize_factors": True}, {}),
-                ("user-init[none]", {"init": L(lambda c: cp_dec(c, 2, "none", shape=(3, 4, 2)))}, {"init": "cp-weights-none"}),
-                ("user-init[nonunit]", {"init": L(lambda c: cp_dec(c, 2, "nonunit", shape=(3, 4, 2)))}, {"init": "cp-weights-nonunit"})],
+                ("user-init[none]", {"init": L(lambda c: cp_dec(c, 2, "none", shape=(3, 4, 2)))}, {"init": "cp-unit-weights"}),
+                ("user-init[nonunit]", {"init": L(lambda c: cp_dec(c, 2, "nonunit", shape=(3, 4, 2)))}, {"init": "cp-nonunit-weights"})],
                sizes=(0,)))
 
     # ---- TT / TR / TT-matrix ----
